@@ -178,7 +178,8 @@ PROPS = {
                      dict(bag="time", depth=16, quick=120, thorough=2000),
                      dict(bag="inv", depth=18, quick=120, thorough=2000),
                      dict(bag="slowprog", depth=14, quick=100, thorough=1500),
-                     dict(bag="callp", depth=14, quick=100, thorough=1500)]),
+                     dict(bag="callp", depth=14, quick=100, thorough=1500),
+                     dict(bag="cancelstream", depth=14, quick=100, thorough=1500)]),
     "C17": dict(family="client", hostile_enum=True,
                 conc=dict(inv=["OwnReply", "AtMostOnce", "NoLeftover"], props=["CloseReturns", "ApisReturn", "RunMovesOn"],
                           quick=dict(napi=2, nreplies=2), thorough=dict(napi=3, nreplies=2),
@@ -186,7 +187,9 @@ PROPS = {
                 gen=[dict(bag="hostile", depth=18, quick=120, thorough=2000),
                      dict(bag="shutdown", depth=16, quick=100, thorough=1500),
                      dict(bag="dupinv", depth=18, quick=80, thorough=1500),
-                     dict(bag="time", depth=16, quick=60, thorough=1000)]),
+                     dict(bag="time", depth=16, quick=60, thorough=1000),
+                     dict(bag="cancelstream", depth=14, quick=80, thorough=1200),
+                     dict(bag="deafrouter", depth=14, quick=80, thorough=1200)]),
     "C09": dict(family="core",
                 mcx=dict(module="MCHs", spec="MCSpec",
                          inv=["C09_WelcomeOnlyIfJustified", "C09_AttachedIffWelcomed", "C09_RejectedInert", "C09_AbortedOrClosed", "C09_Identity"],
